@@ -77,8 +77,8 @@ CHECKS["C10"] = dict(
 
 CHECKS["C07"] = dict(
     category="proof",
-    text="Scenario.assign_obstacles_to_lanelets (incl. its two nested functions), the lanelet registries, _add/_remove_*_obstacle_(to|from)_lanelets, add_objects / remove_obstacle are executed symbolically from the real source on a 2-lanelet network with a static obstacle (rectangle, circle) and a dynamic obstacle with trajectory prediction at symbolic poses; find_lanelet_by_position / find_lanelet_by_shape run through the STRtree model, so every combination of 'centre in lanelet' / 'occupancy intersects lanelet' is a path. Postconditions: recorded centre set == lanelets containing the centre, recorded shape set == lanelets the occupancy intersects, each lanelet registry is exactly the inverse of the shape assignment (per time step for dynamic obstacles), remove_obstacle never fails and clears the registries; obstacles added with given assignments are registered on exactly those lanelets.",
-    note="geometric predicates are the abstract shapely predicates (their truth is C06); assumed geometry fact: a lanelet containing the centre of a shape is intersected by it; reader-side assignment (XML / protobuf with lanelet_assignment=True) is not covered; 2 lanelets, 1-2 time steps",
+    text="Scenario.assign_obstacles_to_lanelets (incl. its two nested functions), the lanelet registries, _add/_remove_*_obstacle_(to|from)_lanelets, add_objects / remove_obstacle are executed symbolically from the real source on a 2-lanelet network with a static obstacle (rectangle, circle) and a dynamic obstacle with trajectory prediction at symbolic poses; find_lanelet_by_position / find_lanelet_by_shape run through the STRtree model, so every combination of 'centre in lanelet' / 'occupancy intersects lanelet' is a path. Postconditions: recorded centre set == lanelets containing the centre, recorded shape set == lanelets the occupancy intersects, each lanelet registry is exactly the inverse of the shape assignment (per time step for dynamic obstacles), remove_obstacle never fails and clears the registries; obstacles added with given assignments are registered on exactly those lanelets; the XML and protobuf readers with lanelet_assignment=True record the same geometric truth.",
+    note="geometric predicates are the abstract shapely predicates (their truth is C06); assumed geometry fact: a lanelet containing the centre of a shape is intersected by it; reader-side assignment IS covered: a scenario with a static obstacle / a dynamic obstacle with trajectory is written (XML and protobuf, abstract documents) and read back with lanelet_assignment=True, and the same three equivalences are required of what the reader recorded (1 lanelet); 2 lanelets in the assign contracts of the thorough tier, 1-2 time steps",
     technique="deductive: AST symbolic execution of real source with abstract geometric predicates (all predicate valuations explored), VCs discharged by z3",
     design_ref="5/C07",
 )
@@ -149,7 +149,7 @@ CHECKS["C13"] = dict(
 
 CHECKS["C02"] = dict(
     category="proof",
-    text="The real ProtobufFileWriter (every XxxMessage.create_message) and ProtobufFileReader (every XxxFactory.create_from_message, incl. StateFactory class matching) are executed symbolically back to back on message trees built from the REAL descriptors of the generated *_pb2 classes (type checks, 32-bit ranges, presence, oneof, required fields as in the pure-python protobuf implementation the repository runs on). Content groups as in C01 (lanelet network with stop line, sign incl. virtual flag and first occurrences, light incl. offset/direction/active, intersection; static / dynamic (trajectory with signal states incl. horn, set-based) / phantom / environment obstacles; planning problems with interval- and region-valued goal states) plus: every object built through its public constructor with default arguments (incl. id 0 neighbours and a cycle-less light switched on), one trajectory per state class (PM, KS, KST, ST, STD, MB, ExtendedPM), trajectory states with interval- and region-valued attributes, a shape-group obstacle, and EXHAUSTIVE transport of every enumeration member the .proto files define (tags, environment, lanelet types, users, markings, obstacle types, light states and directions, every sign id of the 13 countries with a proto enumeration). Postcondition: structural equality of everything, reals IDENTICAL (tolerance 0); all reals, ids and time steps symbolic.",
+    text="The real ProtobufFileWriter (every XxxMessage.create_message) and ProtobufFileReader (every XxxFactory.create_from_message, incl. StateFactory class matching) are executed symbolically back to back on message trees built from the REAL descriptors of the generated *_pb2 classes (type checks, 32-bit ranges, presence, oneof, required fields as in the pure-python protobuf implementation the repository runs on). Content groups as in C01 (lanelet network with stop line, sign incl. virtual flag and first occurrences, light incl. offset/direction/active, intersection; static / dynamic (trajectory with signal states incl. horn, set-based) / phantom / environment obstacles; planning problems with interval- and region-valued goal states) plus: every object built through its public constructor with default arguments (incl. id 0 neighbours and a cycle-less light switched on), one trajectory per state class (PM, KS, KST, ST, STD, MB, ExtendedPM), trajectory states with interval- and region-valued attributes, a shape-group obstacle, meta data (author, affiliation, source, tags, location) given to the writer instead of the scenario, and EXHAUSTIVE transport of every enumeration member the .proto files define (tags, environment, lanelet types, users, markings, obstacle types, light states and directions, every sign id of the 13 countries with a proto enumeration). Postcondition: structural equality of everything, reals IDENTICAL (tolerance 0); all reals, ids and time steps symbolic.",
     note="the wire format is assumed: serialise/parse is the identity on (presence, values, order), doubles 64-bit (pbmodel, trusted; cross-checked natively against the real library by tools/native_all.py); preconditions: integers fit the format's 32-bit fields, enumeration members exist in the .proto (HEAVY_RAIN etc. do not), centre line = mean of the boundaries (the format stores only the boundaries), writer given author/affiliation/source/tags; a light without cycle reads back with an empty cycle (treated as the same content, both readers do this); structure bounds as in C01 (2-vertex boundaries, 2 trajectory states, 1-3 objects per kind). Known finding: KSTState trajectories cannot be written (no hitch_angle field in obstacle.proto).",
     technique="deductive: AST symbolic execution of the real protobuf writer and reader on descriptor-driven message trees, exact round-trip postcondition discharged by z3",
     design_ref="5/C02",
